@@ -97,7 +97,22 @@ def makeLogic (descs : List Desc) (reqs : Option (List SR)) : Option R :=
 def isNum (v : String) : Bool := v.toNat?.isSome
 
 /-- the generator's field constraints: exists / string const / string pattern ^val / number minimum -/
+def filterPasses (kind : Char) (val v : String) : Bool :=
+  match kind with
+  | 'c' => !isNum v && v == val
+  | 'p' => !isNum v && (v.toList.take val.length == val.toList)
+  | 'm' => (match v.toNat?, val.toNat? with | some x, some m => x ≥ m | _, _ => false)
+  | _ => false
+
 def credMatches (d : Desc) (c : Cred) : Bool :=
+  -- upper case kinds: the filter sits on an OPTIONAL field (absent is fine, present must pass), next to the required
+  -- field "attribute a0 exists"
+  if d.kind == 'C' || d.kind == 'P' || d.kind == 'M' then
+    (c.attrs.any (·.1 == "a0")) &&
+      (match c.attrs.find? (·.1 == d.attr) with
+       | none => true
+       | some (_, v) => filterPasses d.kind.toLower d.val v)
+  else
   match c.attrs.find? (·.1 == d.attr) with
   | none => false
   | some (_, v) =>
